@@ -292,3 +292,80 @@ def hostlen_rule(F, R):
 def install():
     if discharge not in PN.EXTRA_DISCHARGERS:
         PN.EXTRA_DISCHARGERS.append(discharge)
+
+
+# ---------------------------------------------------------------------------------------------------------------
+# RET-RS — encode_unchecked returns exactly the impl's own required_size (the number of bytes it announces)
+def _enc_to_rs(F, t):
+    """rewrite calls of encode_unchecked impls into calls of their sibling required_size (buffer/address arguments dropped)"""
+    if not isinstance(t, tuple) or not t:
+        return t
+    if t[0] == "call" and t[1] in F.fns and is_encode_impl(F, t[1]):
+        sib = sibling(F, t[1])
+        args = list(t[2])
+        if F.fns[t[1]]["trait_item"].startswith("sciparse::proto::payload"):
+            keep = [args[0]] + ([args[3]] if len(args) > 3 else [])
+        else:
+            keep = [args[0]]
+        return ("call", sib or "?", tuple(_enc_to_rs(F, a) for a in keep), None)
+    if t[0] == "call":
+        return ("call", t[1], tuple(_enc_to_rs(F, a) for a in t[2]), None)
+    return tuple(_enc_to_rs(F, x) if isinstance(x, tuple) else x for x in t)
+
+
+def _alts(t):
+    if t[0] == "phi":
+        out = set()
+        for a in t[1]:
+            if isinstance(a, tuple):
+                out |= _alts(a)
+        return out
+    return {t}
+
+
+def ret_rs(F):
+    """[(fn, ok, how)] for every encode_unchecked impl"""
+    import symb as SY
+    out = []
+    for p in sorted(F.all_body_paths("sciparse")):
+        if T.is_test_support(p) or not is_encode_impl(F, p):
+            continue
+        b = F.body(p)
+        sib, rs = rs_tree(F, p)
+        if rs is None:
+            out.append((p, False, "no sibling required_size"))
+            continue
+        ro = strip_sites(b.local_origin(0))
+        a0 = _norm(F, p, ro)
+        if a0 == rs:
+            out.append((p, True, "returns self.required_size(..)"))
+            continue
+        strip_none = lambda t: SY.nr(strip_sites(_enc_to_rs(F, t)))
+        A = {SY.norm(F, strip_none(x)) for x in _alts(a0)}
+        B = {SY.norm(F, strip_none(x)) for x in _alts(rs)}
+        if A == B:
+            out.append((p, True, "same expression%s" % (" per arm (%d arms; encode calls mapped to their required_size)" % len(A) if len(A) > 1 else "")))
+        else:
+            out.append((p, False, "returns %s, announces %s" % (fmt(a0, 100), fmt(rs, 100))))
+    return out
+
+
+def ret_rs_rule(F, R):
+    n = 0
+    for p, ok, how in ret_rs(F):
+        n += 1
+        R.fn(p)
+        R.ob("RET-RS", "%s returns exactly its required_size [%s]" % (short(p), how[:60]), ok, True,
+             {"rule": "RET-RS", "fn": p, "how": how, "holds": ok} if (not ok or n % 6 == 0) else None)
+        if not ok:
+            R.violation("RET-RS", p, "%s does not return the number of bytes it announced through required_size (%s): callers that trust the return "
+                        "value (try_encode, nested encoders advancing their offset) emit or skip bytes" % (short(p), how), F.loc(p))
+    R.floor("RET-RS", n, 25, "encode_unchecked impls (WireEncode + PayloadEncode)")
+
+
+@PN.invariant("ret-rs")
+def _inv_ret_rs(F):
+    bad = [(p, how) for p, ok, how in ret_rs(F) if not ok]
+    if bad:
+        return False, "%s: %s" % (short(bad[0][0]), bad[0][1])
+    return True, "every encode_unchecked impl returns its required_size"
